@@ -249,19 +249,34 @@ class ModuleFinder:
         real_module_name = module_name
         real_module_name = real_module_name.removesuffix("-stubs")
         namespace_dirs = []
+        # A pkg-style namespace package is a regular package for Python: the first one found wins
+        # over modules and packages of the same name in later search paths, its directory comes first
+        # in `__path__`, and every same-named directory of the other search paths is one of its portions.
+        pkg_style_namespace = False
         for path in self.search_paths:
             path_contents = self._contents(path)
             if path_contents:
                 for choice in filepaths:
                     abs_path = path / choice
                     if abs_path in path_contents:
+                        if pkg_style_namespace:
+                            # Without `__init__` module, a directory is shadowed by a module next to it.
+                            if abs_path.is_dir() and (
+                                (abs_path / "__init__.py").exists() or path / filepaths[1] not in path_contents
+                            ):
+                                namespace_dirs.append(abs_path)
+                            continue
                         if abs_path.suffix:
                             stubs = abs_path.with_suffix(".pyi")
                             return Package(real_module_name, abs_path, stubs if stubs.exists() else None)
                         init_module = abs_path / "__init__.py"
-                        if init_module.exists() and not _is_pkg_style_namespace(init_module):
-                            stubs = init_module.with_suffix(".pyi")
-                            return Package(real_module_name, init_module, stubs if stubs.exists() else None)
+                        if init_module.exists():
+                            if not _is_pkg_style_namespace(init_module):
+                                stubs = init_module.with_suffix(".pyi")
+                                return Package(real_module_name, init_module, stubs if stubs.exists() else None)
+                            pkg_style_namespace = True
+                            namespace_dirs.insert(0, abs_path)
+                            continue
                         init_module = abs_path / "__init__.pyi"
                         if init_module.exists():
                             # Stubs package.
